@@ -1,5 +1,6 @@
 import TucanProofs.Lemmas.Pipeline
 import TucanProofs.Lemmas.ClassesEdges
+import TucanProofs.Lemmas.Stable
 import TucanProofs.Examples
 /-!
 # C13 — partition classes are label-independent, equitable and respect symmetry
@@ -54,6 +55,15 @@ theorem C13_classes_on_canonical_graph (order : Graph → List Nat)
   refine ⟨σ, h1, h2, fun a ha => ?_⟩
   obtain ⟨_, q, _, hr, hc, _⟩ := h4 a ha
   exact ⟨q, hr, hc⟩
+
+/-- **Stable under further refinement**, literally: running the refinement step
+(`partition_molecule_by_attribute(·, PARTITION)`) once more on the refined graph returns, and gives every atom the
+class it already has. -/
+theorem C13_stable_under_refinement (order : Graph → List Nat) (g c r : Graph) (k : Nat) (hw : g.WF) (hs : g.Simple)
+    (h : canonicalizeWith g order = .ok (c, r, k)) :
+    ∃ r', partitionMoleculeByAttribute r .partition = .ok r' ∧ r'.labels = r.labels ∧
+      ∀ a ∈ r.labels, partOf? r' a = partOf? r a :=
+  refined_stable order g c r k hw hs h
 
 /-- **Symmetry.**  Two atoms that are mapped onto each other by a symmetry of the molecule (an
 identity-preserving automorphism) are in the same class. -/
